@@ -571,7 +571,56 @@ def index_width_lint(chk, repo, rule, paths):
                            '' if worst is None else f'`{worst[0]}` is a {worst[2]} ({worst[1]} bytes), the index a {it_} ({wi} byte{"s" if wi > 1 else ""}): the index wraps before the bound is reached once `{worst[0]}` exceeds {2 ** (8 * wi) - 1}',
                            mod.where(lp), key=f'{rule}|{rel}::{fn.name}|{idx_name}|{shown[:40]}', method='declared C types of loop index and bound')
     chk.note_analysed('typed range-loops', n_loops)
+    n_idx = _index_narrowing(chk, repo, rule, paths)
+    chk.note_analysed('typed index variables', n_idx)
     return n_loops
+
+
+def _index_narrowing(chk, repo, rule, paths):
+    """A variable that is used inside a subscript (an offset into a buffer) and is assigned an expression built from wider integer variables holds the expression modulo its own
+    range: the element addressed is then another one as soon as the wider value exceeds that range.  Every such offset variable must be at least as wide as the integer variables
+    its value is computed from (unless the function validates them against a limit the variable can hold)."""
+    import glob, os
+    n = 0
+    for pat in paths:
+        for path in sorted(glob.glob(os.path.join(repo.root, pat), recursive=True)):
+            rel = os.path.relpath(path, repo.root)
+            mod = repo.by_path(rel)
+            if getattr(mod, 'facts', None) is None:
+                continue
+            for fn in [x for x in ast.walk(mod.tree) if isinstance(x, ast.FunctionDef)]:
+                types = _c_types(mod, fn)
+                in_index = set()
+                for sub in [x for x in ast.walk(fn) if isinstance(x, ast.Subscript)]:
+                    for x in ast.walk(sub.slice):
+                        if isinstance(x, ast.Name): in_index.add(x.id)
+                for st in [x for x in ast.walk(fn) if isinstance(x, (ast.Assign, ast.AugAssign))]:
+                    tg = st.targets[0] if isinstance(st, ast.Assign) and len(st.targets) == 1 else (st.target if isinstance(st, ast.AugAssign) else None)
+                    if not isinstance(tg, ast.Name) or tg.id not in in_index:
+                        continue
+                    tt = ' '.join(types.get(tg.id, '').replace('const ', '').split())
+                    wt = _INT_WIDTH.get(tt)
+                    if wt is None or not isinstance(st.value, (ast.BinOp, ast.Name)):
+                        continue
+                    n += 1
+                    worst = None
+                    for x in ast.walk(st.value):
+                        if isinstance(x, ast.Name):
+                            tb = ' '.join(types.get(x.id, '').replace('const ', '').split())
+                            wb = _INT_WIDTH.get(tb)
+                            if wb is not None and wb > wt and (worst is None or wb > worst[1]):
+                                worst = (x.id, wb, tb)
+                    if worst is not None:
+                        lim = _guarded_limit(mod, fn, worst[0], st)
+                        if lim is None:
+                            lim = _guarded_limit_through_callers(mod, fn, worst[0])
+                        if lim is not None and lim <= 2 ** (8 * wt) - 1:
+                            worst = None
+                    shown = ast.unparse(st)[:60]
+                    chk.ob(rule, f'{rel}::{fn.name}: offset variable `{tg.id}` ({tt}) is at least as wide as the integers of `{shown}`', worst is None,
+                           '' if worst is None else f'`{worst[0]}` is a {worst[2]} ({worst[1]} bytes), `{tg.id}` a {tt} ({wt} byte{"s" if wt > 1 else ""}) used as an offset into a buffer: it holds the value modulo {2 ** (8 * wt)}',
+                           mod.where(st), key=f'{rule}|{rel}::{fn.name}|offset {tg.id}|{shown[:40]}', method='declared C types of an offset variable and the integers it is computed from')
+    return n
 
 
 # ---------------------------------------------------------------------------------------------- dimensional homogeneity of a function's own arithmetic (unit inference)
